@@ -23,10 +23,11 @@ CFG = {
         "value obtained from a run-encoded stream": r"^deser chk b\d+ hex:3b30.* => ok",
     },
     "gaps": [
-        "C05_bytes_partial: serialize b = Spec.encode (elems b) is proved for bitmaps whose chunks are all array chunks; "
-        "for bitset chunks the words-vs-elements bridge (bits = wordsOf (toArray bits)) is an explicit hypothesis "
-        "(kernel fact of the BitmapStore library under construction)",
-        "the 64-bit (RoaringTreemap) half is handled by the treemap family",
+        'C05_size, C05_decode (round trip through both decoders, both build configurations, with arbitrary trailing bytes) are proved in full for BitmapWF values',
+        "C05_bytes_partial / C05_deterministic_partial: serialize b = Spec.encode (elems b) is proved modulo ONE named kernel hypothesis, Kernel.bitmap_toArray (for a well-formed bitset chunk, to_array_store's listing has len values < 65536 that re-assemble into the stored words); header, descriptors, offsets, array payloads, chunk keys and chunk grouping of elems are proved. The hypothesis belongs to the BitmapStore lemma library (coordinator) and is exercised at run time by the driver's !SPEC cross-check on every `ser`",
+        'BitmapWF is a local definition (Lemmas/CodecWF.lean) mirroring bitmapWF of Driver/Core.lean; the producer theorems (every API-built value is WF) belong to C01/C02/C04',
+        "C05_offsets (i-th offset = position of chunk i's payload) is implied by C05_bytes + Spec.decode's offset check but not stated separately",
+        'the 64-bit (RoaringTreemap) half is handled by the treemap family',
     ],
     "level_text": "Lean 4 theorems over the executable model of serialize_into / serialized_size / both decoders: size law, "
                   "equality with an independent reference encoder written from the format specification (Spec.encode, "
